@@ -36,11 +36,11 @@ def N(a):
 
 
 FORMS = {
-    'CTL': [('A', ('G', ('imp', P, ('A', ('F', Q))))), ('E', ('U', P, Q)),
+    'CTL': [('A', ('G', ('imp', P, ('A', ('F', Q))))), ('and', ('or', P, Q), ('E', ('U', P, Q)), N(Q)),
             N(('E', ('X', ('and', P, Q)))), ('A', ('R', ('or', P, Q), P))],
     'LTL': [('A', ('G', ('F', P))), ('A', ('U', P, Q)), ('A', ('and', ('F', P), ('G', ('or', P, Q)))),
             ('A', ('imp', ('X', P), ('F', N(Q))))],
-    'CTLS': [('A', ('G', P)), ('A', ('F', ('G', P))), ('E', ('G', ('F', Q))),
+    'CTLS': [('or', P, ('E', ('G', Q)), Q), ('A', ('F', ('G', P))), ('E', ('G', ('F', Q))),
              ('A', ('G', ('imp', P, ('A', ('F', ('E', ('X', Q)))))))],
 }
 FS = [None, [], [[0]], [[0], [1]], [[0, 1]]]
